@@ -564,6 +564,15 @@ func acceptanceSweep(res *ev.Result) {
 			adv = append(adv, trailerShape{fmt.Sprintf("adversarial-resp-fc3-%dregs-crc-at-%d", regs, k), append([]byte(nil), body...)})
 		}
 	}
+	// the longest frames there are: 254, 255 and 256 bytes in all (a Read Server ID response / a write-multiple-registers
+	// request of that size), every trailer
+	for _, total := range []int{254, 255, 256} {
+		resp := []byte{0x21, 17, byte(total - 5)}
+		for i := 0; i < total-5; i++ {
+			resp = append(resp, byte(i*31+7))
+		}
+		adv = append(adv, trailerShape{fmt.Sprintf("longest-resp-fc17-%d-bytes", total), resp})
+	}
 	ev.Par(len(adv), runtime.NumCPU(), func(i int) {
 		a := adv[i]
 		for t := 0; t < 65536; t++ {
